@@ -287,10 +287,14 @@ var deepCases = []deepCase{
 		return "message M{" + strings.Repeat("optional group G=1{", d) + strings.Repeat("}", d) + "}"
 	}},
 	{"nested-message-literal-braces", func(d int) string { return "option (o)=" + strings.Repeat("{a", d) + strings.Repeat("}", d) + ";" }},
-	{"nested-message-literal-colon", func(d int) string { return "option (o)=" + strings.Repeat("{a:", d) + "1" + strings.Repeat("}", d) + ";" }},
+	{"nested-message-literal-colon", func(d int) string {
+		return "option (o)=" + strings.Repeat("{a:", d) + "1" + strings.Repeat("}", d) + ";"
+	}},
 	{"nested-message-literal-angles", func(d int) string { return "option (o)={a" + strings.Repeat("<a", d) + strings.Repeat(">", d) + "};" }},
 	{"nested-message-literal-open", func(d int) string { return "option (o)=" + strings.Repeat("{a:", d) }},
-	{"nested-list-of-messages", func(d int) string { return "option (o)={a:" + strings.Repeat("[{a:", d) + "1" + strings.Repeat("}]", d) + "};" }},
+	{"nested-list-of-messages", func(d int) string {
+		return "option (o)={a:" + strings.Repeat("[{a:", d) + "1" + strings.Repeat("}]", d) + "};"
+	}},
 	{"open-brackets", func(d int) string { return "option (o)={a:" + strings.Repeat("[", d) }},
 	{"open-parens", func(d int) string { return "option " + strings.Repeat("(", d) }},
 	{"open-angles", func(d int) string { return "option (o)={a" + strings.Repeat("<", d) }},
